@@ -4,6 +4,7 @@
 package main
 
 import (
+	"sort"
 	"encoding/json"
 	"flag"
 	"fmt"
@@ -32,6 +33,18 @@ func main() {
 		*tier = "quick"
 	}
 	seed, _ := strconv.ParseInt(os.Getenv("VERIF_SEED"), 10, 64)
+	if prop == "ALL" {
+		if *kf == "" {
+			*kf = filepath.Join(*out, "known_findings.json")
+		}
+		findings, err := report.LoadFindings(*kf)
+		if err != nil {
+			fmt.Fprintf(os.Stderr, "known findings: %v\n", err)
+			os.Exit(2)
+		}
+		abs, _ := filepath.Abs(*repo)
+		os.Exit(runAll(seed, abs, *out, findings))
+	}
 	rule, ok := rules.Registry[prop]
 	if !ok {
 		fmt.Fprintf(os.Stderr, "unknown property %s\n", prop)
@@ -48,6 +61,47 @@ func main() {
 	abs, _ := filepath.Abs(*repo)
 	code := runOnce(prop, *tier, seed, abs, *out, findings, rule)
 	os.Exit(code)
+}
+
+// runAll (self-test support): every property's quick rule set on ONE load of the tree. Loading dominates the cost of a
+// check, and the self-test corpus asks the same question of every property for hundreds of scratch trees. Each property
+// gets its own report and output directory (<out>/<prop>); after each one a line "=== <prop> exit=<n>" is printed.
+// The verdicts are the ones `check <prop>` gives: same loader, same rules, nothing shared between the reports.
+func runAll(seed int64, repo, out string, findings []report.Finding) int {
+	p, err := load.Load(load.Options{Dir: repo})
+	if err != nil {
+		fmt.Fprintf(os.Stderr, "dcverif: cannot load %s: %v\n", repo, err)
+		return 2
+	}
+	var props []string
+	for k := range rules.Registry {
+		if len(k) == 3 && k[0] == 'C' {
+			props = append(props, k)
+		}
+	}
+	sort.Strings(props)
+	worst := 0
+	for _, prop := range props {
+		code := func() (code int) {
+			defer func() {
+				if r := recover(); r != nil {
+					fmt.Fprintf(os.Stderr, "dcverif: internal error while checking %s: %v\n", prop, r)
+					code = 2
+				}
+			}()
+			rep := report.New(prop, "quick", seed)
+			rep.Count("module_packages", p.NModule)
+			rep.Count("all_packages", p.NAll)
+			ctx := rules.NewCtx(p, rep, "quick")
+			rules.Registry[prop](ctx)
+			return rep.Finish(filepath.Join(out, prop), findings)
+		}()
+		fmt.Printf("=== %s exit=%d\n", prop, code)
+		if code > worst {
+			worst = code
+		}
+	}
+	return worst
 }
 
 func runOnce(prop, tier string, seed int64, repo, out string, findings []report.Finding, rule rules.RuleFunc) (code int) {
